@@ -127,6 +127,27 @@ Theorem C07_len_zero : forall ops,
 Proof. exact C07_len_zero_proof. Qed.
 Print Assumptions C07_len_zero.
 
+(* SelectValueHistory walks exactly the value-log entries of the key, newest first: it starts at the buffered value
+   and a key without buffered value has no history (overwritten-in-place versions are gone, as in the code). *)
+Theorem C07_history : forall st k,
+  hd_error (x_history st k) = buf_get (x_b st) k /\
+  (forall v, In v (x_history st k) <-> In (k, v) (b_log (x_b st))).
+Proof. exact C07_history_proof. Qed.
+Print Assumptions C07_history.
+
+(* InspectStage(h) reports exactly the keys that have a value-log entry in level h or above (written since
+   Staging h and not discarded), each key once, with its CURRENT value and flags. *)
+Theorem C07_inspect_stage : forall st h,
+  let b := x_b st in
+  let pos := nth (length (b_stages b) - h) (b_stages b) O in
+  let lvl := firstn (length (b_log b) - pos) (b_log b) in
+  NoDup (map (fun e => fst (fst e)) (x_inspect_stage st h)) /\
+  (forall k f v, In (k, f, v) (x_inspect_stage st h) <->
+                 kv_get lvl k = Some v /\ f = match x_get_flags st k with Some f => f | None => 0 end) /\
+  (forall k f v, In (k, f, v) (x_inspect_stage st h) -> buf_get b k = Some v).
+Proof. exact C07_inspect_stage_proof. Qed.
+Print Assumptions C07_inspect_stage.
+
 (* ---------- non-vacuity ---------- *)
 Example flags_example :
   let st := xrun [XWrite [97] [1] [0%nat]; XStaging; XWrite [98] [2] [2%nat; 0%nat]; XFlags [97] [1%nat; 9%nat];
